@@ -13,6 +13,7 @@ Driver for C07.  Tokens: address `<A><S>:<byte>:<bit>:<path|->:<wild>` (`IW:4:0:
   r <addr>                                 IoInterface::read       -> m ok <value> | err:<e>
   nvars <n> / var <id> <value> / setvar <id> <value>
   bind name|ref <id> <addr> <type>         append a binding
+  at <firstId> <baseAddr> e:<ty>|a:<len>:<ty>|s:<ty>,..   append the bindings of an AT declaration
   latch                                    IoInterface::read_inputs  -> m ok|err:<e> vars=..
   publish                                  IoInterface::write_outputs -> m ok|err:<e> I=.. Q=.. M=..
   pr <value> <acc> / pw <value> <acc> <value>   partial access     -> m ok <value> | err:..
@@ -95,6 +96,7 @@ def parseTy? : String → Option (Option Ty)
   | "dint" => some (some .dint) | "udint" => some (some .udint) | "dword" => some (some .dword)
   | "real" => some (some .real) | "lint" => some (some .lint) | "ulint" => some (some .ulint)
   | "lword" => some (some .lword) | "lreal" => some (some .lreal) | "other" => some (some .other)
+  | "time" => some (some .time) | "ltime" => some (some .ltime)
   | _ => none
 
 def tyTok : Option Ty → String
@@ -103,7 +105,7 @@ def tyTok : Option Ty → String
   | some .char => "char" | some .int => "int" | some .uint => "uint" | some .word => "word"
   | some .wchar => "wchar" | some .dint => "dint" | some .udint => "udint" | some .dword => "dword"
   | some .real => "real" | some .lint => "lint" | some .ulint => "ulint" | some .lword => "lword"
-  | some .lreal => "lreal" | some .other => "other"
+  | some .lreal => "lreal" | some .other => "other" | some .time => "time" | some .ltime => "ltime"
 
 def errTok : Err → String
   | .typeMismatch => "typeMismatch" | .overflow => "overflow" | .invalidIoAddress => "invalidIoAddress"
@@ -228,6 +230,24 @@ def step (st : St) (line : String) : St × Option String :=
       if how = "name" then ({ st with bindings := st.bindings ++ [{ target := .name x, addr := a, ty := t }] }, none)
       else if how = "ref" then ({ st with bindings := st.bindings ++ [{ target := .ref x, addr := a, ty := t }] }, none)
       else (st, some "bad-op")
+    | _, _, _ => (st, some "bad-op")
+  | ["at", first, a, sh] =>
+    let shape? : Option Shape :=
+      match sh.splitOn ":" with
+      | ["e", t] => (parseTy? t).bind fun t => t.map .elem
+      | ["a", len, t] => do
+        let len ← len.toNat?
+        let t ← (parseTy? t).bind id
+        some (.array len t)
+      | ["s", ts] => do
+        let ts ← (ts.splitOn ",").mapM fun t => (parseTy? t).bind id
+        some (.struct ts)
+      | _ => none
+    match first.toNat?, parseAddr? a, shape? with
+    | some first, some a, some shape =>
+      match expandAt first a shape with
+      | some bs => ({ st with bindings := st.bindings ++ bs }, none)
+      | none => (st, some "bad-op")
     | _, _, _ => (st, some "bad-op")
   | ["latch"] =>
     let (s', e) := latch st.io st.bindings st.store
